@@ -11,8 +11,8 @@ import multiprocessing as mp
 from . import core
 from .core import REGISTRY, run_obligation, get_program, VERIF
 
-EVIDENCE = os.path.join(VERIF, 'evidence')
-REPLAY = os.path.join(VERIF, 'replay')
+EVIDENCE = os.environ.get('VERIF_EVIDENCE') or os.path.join(VERIF, 'evidence')
+REPLAY = os.environ.get('VERIF_REPLAY') or os.path.join(VERIF, 'replay')
 KNOWN = os.path.join(VERIF, 'known_findings.json')
 
 
